@@ -70,6 +70,19 @@ CHECKS.update({
         design="4 C18"),
 })
 
+CHECKS.update({
+    "C05": dict(
+        text="TLC checks the vote-casting rules (OneInitialVote, RulesAtCastTime: parent acceptable / final only for "
+             "the own notarized block after its certificate / fallback only after the safe event, NoFinalInBadSlot, "
+             "FallbackOnlyAfterVoted, OwnVotesNeverSlashable, StandstillForwarded) on the Votor model under every "
+             "order of pool events, blockstore events (several blocks per slot, children before parents), timeouts, "
+             "across a window boundary and pruning; every (state, event) transition is replayed by single-stepping the "
+             "real Votor (hooks) and comparing the broadcast votes/certificates (incl. signer index) and the per-slot state.",
+        note="pool guarantees towards Votor are assumed here and established by C06; timer arming not observed; " + TB,
+        technique="TLA+ spec of Votor + TLC exhaustive BFS (bounded event count) + spec->code transition replay",
+        design="4 C05"),
+})
+
 NOT_YET = {
     "C01": "check not built yet in this round (abstract protocol model + simulator planned, DESIGN 4 C01)",
     "C02": "check not built yet in this round (DESIGN 4 C02)",
